@@ -108,17 +108,17 @@ theorem isBlank_of_spec (b : UInt8) : LexSpec.isBlank b = true → IsBlank b := 
   revert b; apply forall_byte; unfold IsBlank; decide +kernel
 
 /-- the end of the text behind a run of blanks: the EOF token. -/
-theorem scan_eof (input : Bytes) (prev : Int) (bs : Bytes) (hall : ∀ b ∈ bs, IsBlank b) (s : Sc)
+theorem scan_eof (input : Bytes) (prev : Prev) (bs : Bytes) (hall : ∀ b ∈ bs, IsBlank b) (s : Sc)
     (hI : RestInv input s) (hs : s.rest = bs) :
     ∃ tok pnl s', scan prev s = .tok tok pnl s' ∧ tok.type = -1 ∧ tok.str = [] ∧ tok.line = -1 ∧
-      tok.off = input.length := by
+      tok.off = input.length ∧ tok.col = 0 := by
   obtain ⟨h1, h2⟩ := skipBlanks_eof bs hall s hs
   have hc : ¬ ((skipBlanks s).1 = 45 ∧ peek (skipBlanks s).2.1 = 45) := by rw [h1]; omega
   have hI1 : RestInv input (skipBlanks s).2.1 := reach_restInv input (skipBlanks_reach s) hI
   have hlen := restInv_len input _ hI1
   rw [h2] at hlen
   obtain ⟨s0, _, e0, _⟩ := skipBlanks_last s
-  have hline : (skipBlanks s).2.1.line = -1 := by
+  have hline : (skipBlanks s).2.1.line = -1 ∧ (skipBlanks s).2.1.col = 0 := by
     have e1 : (next s0).1 = (skipBlanks s).1 := by rw [e0]
     have e2 : (next s0).2 = (skipBlanks s).2.1 := by rw [e0]
     rw [← e2]
@@ -140,7 +140,7 @@ theorem scan_eof (input : Bytes) (prev : Int) (bs : Bytes) (hall : ∀ b ∈ bs,
              off := (skipBlanks s).2.1.off }, (skipBlanks s).2.1) := by
     rw [h1]
     simp [scanToken, isIdent, isDecimal]
-  refine ⟨_, _, _, scan_token prev s _ _ hc hst, rfl, rfl, hline, ?_⟩
+  refine ⟨_, _, _, scan_token prev s _ _ hc hst, rfl, rfl, hline.1, ?_, hline.2⟩
   simp only [List.length_nil] at hlen
   simpa using hlen
 
@@ -156,7 +156,7 @@ theorem toNat_eq_45 (c : UInt8) (h : (c.toNat : Int) = 45) : c = 45 := by
   exact UInt8.toNat_inj.mp this
 
 /-- a run of blanks, then the rendered token. -/
-theorem scan_tok (input : Bytes) (prev : Int) (t : RTok) (r : Bytes) (hT : TokScan t r)
+theorem scan_tok (input : Bytes) (prev : Prev) (t : RTok) (r : Bytes) (hT : TokScan t r)
     (bs : Bytes) (hall : ∀ b ∈ bs, IsBlank b) (s : Sc) (hI : RestInv input s)
     (hs : s.rest = bs ++ (t.render ++ r)) : ScanOK input t r (scan prev s) := by
   obtain ⟨c, tail, hr, hcb, hnc, hscan⟩ := hT
@@ -193,7 +193,7 @@ theorem renderSeps_nil : renderSeps [] = [] := rfl
 /-- a whole gap: blanks are skipped, every comment sends `Scan` back to its start (`goto redo`), and the scan of
     what follows the gap decides the result.  `R` is the text behind the gap: empty or starting with a byte that
     is no line terminator. -/
-theorem scan_gap (input : Bytes) (prev : Int) (R : Bytes) (Q : ScanRes → Prop) (hasNext : Bool)
+theorem scan_gap (input : Bytes) (prev : Prev) (R : Bytes) (Q : ScanRes → Prop) (hasNext : Bool)
     (hR : ∀ c R', R = c :: R' → c ≠ 10 ∧ c ≠ 13) (hRn : hasNext = false → R = [])
     (hQ : ∀ (bs : Bytes) (s : Sc), (∀ b ∈ bs, IsBlank b) → RestInv input s → s.rest = bs ++ R → Q (scan prev s)) :
     ∀ (n : Nat) (g : List Sep), g.length ≤ n →
@@ -347,7 +347,7 @@ theorem follow_dash (t : RTok) (ht : t ≠ .sym [45]) (r : Bytes) : follow t (45
     all_goals first | rfl | (exact absurd ‹sp = [45]› this)
   | name w => simp only [follow]; decide
   | kw k => simp only [follow]; decide
-  | num n => simp only [follow]; decide
+  | num n => simp [follow]; decide
   | str q cs => rfl
   | lstr l f c => rfl
 
@@ -396,17 +396,6 @@ theorem gapOK_follow (p : RTok) (gap : List Sep) (nx : Option RTok) (X : Bytes)
 
 /-! ### the whole token list -/
 
-/-- what the round trip looks at: token type, token value, and the ghost offset of the token's first byte. -/
-def view (p : Token × Bool) : Int × Bytes × Nat := (p.1.type, p.1.str, p.1.off)
-
-/-- the expected stream: for each token its type, its value and the number of bytes rendered before it; then the
-    EOF token at the end of the text. -/
-def expectFrom (lay : Layout) : Nat → Nat → List RTok → List (Int × Bytes × Nat)
-  | i, pre, [] => [(-1, [], pre + (renderSeps (lay i)).length)]
-  | i, pre, t :: ts =>
-    (tokType t, tokStr t, pre + (renderSeps (lay i)).length) ::
-      expectFrom lay (i + 1) (pre + (renderSeps (lay i)).length + t.render.length) ts
-
 theorem symType_nonneg (sp : Bytes) : 0 ≤ symType sp := by
   unfold symType
   repeat' split
@@ -429,12 +418,12 @@ theorem gapOK_parts (prev : Option RTok) (gap : List Sep) (nx : Option RTok) (h 
   exact ⟨h.1.1, h.1.2⟩
 
 theorem lexAll_render (input : Bytes) (lay : Layout) :
-    ∀ (toks : List RTok) (i : Nat) (pt : Option RTok) (prev : Int) (s : Sc),
+    ∀ (toks : List RTok) (i : Nat) (pt : Option RTok) (prev : Prev) (s : Sc),
       (∀ t ∈ toks, ∀ r, follow t r = true → TokScan t r) →
       (∀ j, i ≤ j → j ≤ i + toks.length → GapScan (lay j)) →
       wfFrom lay i pt toks = true → RestInv input s → s.rest = renderFrom lay i toks →
       (lexAll prev s).err = none ∧ (lexAll prev s).toks.map view = expectFrom lay i s.off toks ∧
-        ∀ p ∈ (lexAll prev s).toks, p.1.type < 0 → p.1.line = -1 := by
+        ∀ p ∈ (lexAll prev s).toks, p.1.type < 0 → p.1.line = -1 ∧ p.1.col = 0 := by
   intro toks
   induction toks with
   | nil =>
@@ -444,11 +433,11 @@ theorem lexAll_render (input : Bytes) (lay : Layout) :
     have hGi := hG i (Nat.le_refl _) (by omega)
     simp only [renderFrom] at hs
     have key := scan_gap input prev [] (fun res => ∃ tok pnl s', res = .tok tok pnl s' ∧ tok.type = -1 ∧
-        tok.str = [] ∧ tok.line = -1 ∧ tok.off = input.length) false
+        tok.str = [] ∧ tok.line = -1 ∧ tok.off = input.length ∧ tok.col = 0) false
       (by intro c R' h; simp at h) (fun _ => rfl)
       (by intro bs s hall hI hs; exact scan_eof input prev bs hall s hI (by simpa using hs))
       (lay i).length (lay i) (Nat.le_refl _) (fun x hx => ⟨hsw x hx, hGi x hx (hsw x hx)⟩) hends [] s (by simp) hI (by simpa using hs)
-    obtain ⟨tok, pnl, s', hsc, h1, h2, h3, h4⟩ := key
+    obtain ⟨tok, pnl, s', hsc, h1, h2, h3, h4, h5⟩ := key
     obtain ⟨e1, e2⟩ := lexAll_eof prev s s' tok pnl hsc (by omega)
     refine ⟨e2, ?_, ?_⟩
     · have hlen := restInv_len input s hI
@@ -459,7 +448,7 @@ theorem lexAll_render (input : Bytes) (lay : Layout) :
     · intro p hp _
       rw [e1] at hp
       simp only [List.mem_singleton] at hp
-      rw [hp]; exact h3
+      rw [hp]; exact ⟨h3, h5⟩
   | cons t ts ih =>
     intro i pt prev s hT hG hwf hI hs
     simp only [wfFrom, Bool.and_eq_true] at hwf
@@ -497,7 +486,7 @@ theorem lexAll_render (input : Bytes) (lay : Layout) :
     obtain ⟨tok, pnl, s', hsc, h1, h2, h3, h4, h5⟩ := key
     have hnn := tokType_nonneg t
     obtain ⟨e1, e2⟩ := lexAll_tok prev s s' tok pnl hsc (by omega)
-    obtain ⟨i1, i2, i3⟩ := ih (i + 1) (some t) tok.type s' (fun t' ht' => hT t' (List.mem_cons_of_mem _ ht'))
+    obtain ⟨i1, i2, i3⟩ := ih (i + 1) (some t) { type := tok.type, line := tok.line } s' (fun t' ht' => hT t' (List.mem_cons_of_mem _ ht'))
       (fun j h1 h2 => hG j (by omega) (by simp only [List.length_cons]; omega)) hrest h5 h4
     refine ⟨by rw [e2, i1], ?_, ?_⟩
     rotate_left
@@ -534,14 +523,6 @@ theorem wfFrom_wf (lay : Layout) : ∀ (toks : List RTok) (i : Nat) (pt : Option
 
 /-! ### lines -/
 
-/-- the expected lines: 1 + the number of line ends in the text rendered before the token (`pre` = the text before
-    gap `i`); the EOF token carries `Line = EOF`. -/
-def linesFrom (lay : Layout) : Nat → Bytes → List RTok → List Int
-  | _, _, [] => [-1]
-  | i, pre, t :: ts =>
-    (1 + (lineEnds (pre ++ renderSeps (lay i)) : Int)) ::
-      linesFrom lay (i + 1) (pre ++ renderSeps (lay i) ++ t.render) ts
-
 theorem lines_of_view (lay : Layout) (input : Bytes) :
     ∀ (toks : List RTok) (i : Nat) (pre : Bytes) (L : List (Token × Bool)),
       input = pre ++ renderFrom lay i toks →
@@ -573,6 +554,52 @@ theorem lines_of_view (lay : Layout) (input : Bytes) :
       have := congrArg (fun e => e.2.2) hp
       simpa [view] using this
     simp only [List.map_cons, linesFrom]
+    have hl := hN p (by simp) (by rw [hty]; exact tokType_nonneg t)
+    rw [hl, hoff]
+    have htake : input.take (pre.length + (renderSeps (lay i)).length) = pre ++ renderSeps (lay i) := by
+      rw [hin]
+      simp only [renderFrom]
+      rw [← List.append_assoc, ← List.length_append]
+      exact List.take_left
+    rw [htake]
+    congr 1
+    apply ih (i + 1) (pre ++ renderSeps (lay i) ++ t.render) L'
+    · rw [hin]; simp [renderFrom]
+    · rw [hL']; simp [Nat.add_assoc]
+    · exact fun q hq => hN q (List.mem_cons_of_mem _ hq)
+    · exact fun q hq => hE q (List.mem_cons_of_mem _ hq)
+
+theorem cols_of_view (lay : Layout) (input : Bytes) :
+    ∀ (toks : List RTok) (i : Nat) (pre : Bytes) (L : List (Token × Bool)),
+      input = pre ++ renderFrom lay i toks →
+      L.map view = expectFrom lay i pre.length toks →
+      (∀ p ∈ L, 0 ≤ p.1.type → p.1.col = 1 + (lineCol (input.take p.1.off) : Int)) →
+      (∀ p ∈ L, p.1.type < 0 → p.1.col = 0) →
+      L.map (fun p => p.1.col) = colsFrom lay i pre toks := by
+  intro toks
+  induction toks with
+  | nil =>
+    intro i pre L _ hv _ hE
+    simp only [expectFrom] at hv
+    obtain ⟨p, L', rfl, hp, hL'⟩ := List.map_eq_cons_iff.mp hv
+    simp only [List.map_eq_nil_iff] at hL'
+    subst hL'
+    have : p.1.type = -1 := by
+      have := congrArg (fun e => e.1) hp
+      simpa [view] using this
+    simp only [List.map_cons, List.map_nil, colsFrom]
+    rw [hE p (by simp) (by omega)]
+  | cons t ts ih =>
+    intro i pre L hin hv hN hE
+    simp only [expectFrom] at hv
+    obtain ⟨p, L', rfl, hp, hL'⟩ := List.map_eq_cons_iff.mp hv
+    have hty : p.1.type = tokType t := by
+      have := congrArg (fun e => e.1) hp
+      simpa [view] using this
+    have hoff : p.1.off = pre.length + (renderSeps (lay i)).length := by
+      have := congrArg (fun e => e.2.2) hp
+      simpa [view] using this
+    simp only [List.map_cons, colsFrom]
     have hl := hN p (by simp) (by rw [hty]; exact tokType_nonneg t)
     rw [hl, hoff]
     have htake : input.take (pre.length + (renderSeps (lay i)).length) = pre ++ renderSeps (lay i) := by
